@@ -83,7 +83,7 @@ def counts_for(pid):
 
 
 META = {
-    "C01": ("model_checking", "3/C01", "explicit-state BFS over operation histories on the real generated world (stateright), every issued handle probed through every lookup path after every transition"),
+    "C01": ("model_checking", "3/C01", "explicit-state BFS over operation histories on the real generated world (own level-synchronous BFS; stateright and a plain DFS as cross-checks), every issued handle probed through every lookup path after every transition"),
     "C02": ("model_checking", "3/C02", "explicit-state BFS over histories interleaved with writes through every mutable path; every read path compared with a reference map; arities 1..16"),
     "C03": ("model_checking", "3/C03", "explicit-state BFS; in every reached state an exhaustive universe of forged/foreign handle values is pushed through every safe API (debug-assertion and release builds)"),
     "C04": ("model_checking", "3/C04", "explicit-state BFS with a drop/clone registry; the world is dropped at every explored state"),
